@@ -166,6 +166,23 @@ def run_instance(inst, tier):
                     p2[JN.TARGET_K] = alt
                     if not one("delta", p2, laws, "delta", {"target": repr(alt)}):
                         break
+                # a non-integer target matches no degree: every degree stays pure first-topology
+                p3 = dict(p)
+                p3[JN.TARGET_K] = target + 0.5
+                if not one("delta", p3, [expected_split(t, probs, fp, r, target=-99) for r in ranges], "delta",
+                           {"target": repr(target + 0.5)}):
+                    break
+                # the motif sizes handed to the loader play no role in the split law (the i-th topology spends i edges)
+                if t >= 2:
+                    p4 = dict(p)
+                    p4[JN.MOTIF_SIZES] = [2] + [s_ + 1 for s_ in sizes[1:]]
+                    if not one("delta", p4, laws, "delta", {"target": target, "motif_sizes": p4[JN.MOTIF_SIZES]}):
+                        break
+                    b4 = dict(base)
+                    b4[JN.MOTIF_SIZES] = p4[JN.MOTIF_SIZES]
+                    if not one("split_degree", b4, [expected_split(t, probs, fp, r) for r in ranges], "split",
+                               {"motif_sizes": b4[JN.MOTIF_SIZES]}):
+                        break
             if lo < target < hi - 1 and t >= 2:
                 res.flags.add("delta-target-inside-with-degrees-below")
                 res.nontrivial.add(("delta", t, tuple(inst["probs"]), lo, hi, inst["fp"], target))
